@@ -183,3 +183,71 @@ def unwrap {α : Type} : Option α → M α
   | none => .panic
 
 end Yarel.Rs
+
+namespace Yarel.Rs
+
+/-! ### the abstract interpreter state of the translated `Vm` methods
+
+`stack` is the ACTIVE fiber's value stack, bottom first (Rust's order: `push` appends); `ip` is the offset of the next byte in
+`code` (vm.rs keeps a raw pointer into the chunk); `consts` = `active_chunk.constants`; `slotBase` = the current frame's base;
+`raised` = the errors handed to `try_handle_error`, in order, and `handled` what that call answers (whether a handler took the
+error is decided by the exception machinery, which these one-instruction methods do not look at).
+Meaning of the intrinsics (each is a one- or two-line method of vm.rs / stack.rs): `pop` = `stack.pop().expect(..)` (panics on an
+empty stack in checked builds; unchecked builds read below the array - C10), `peek(d)` = the d-th value from the top, `push`
+appends (the 16384-slot capacity is not modelled: finding F6), `read_byte`/`read_short` fetch at `ip` (little-endian) and advance. -/
+structure Vm where
+  stack : List Value
+  ip : Int
+  code : List (BitVec 8)
+  consts : List Value
+  slotBase : Int
+  raised : List Err
+  handled : Except Err Unit
+deriving Repr
+
+def Vm.pop (vm : Vm) : M (Value × Vm) :=
+  match vm.stack.getLast? with
+  | some v => .ok (v, { vm with stack := vm.stack.dropLast })
+  | none => .panic
+
+def Vm.push (vm : Vm) (v : Value) : Vm := { vm with stack := vm.stack ++ [v] }
+
+def Vm.peek (vm : Vm) (d : Int) : M Value :=
+  if d < 0 then .panic
+  else if d.toNat < vm.stack.length then
+    match vm.stack[vm.stack.length - 1 - d.toNat]? with
+    | some v => .ok v
+    | none => .panic
+  else .panic
+
+def Vm.poke (vm : Vm) (d : Int) (v : Value) : M Vm :=
+  if d < 0 then .panic
+  else if d.toNat < vm.stack.length then .ok { vm with stack := vm.stack.set (vm.stack.length - 1 - d.toNat) v }
+  else .panic
+
+def Vm.discard (vm : Vm) (n : Int) : M Vm :=
+  if n < 0 then .panic
+  else if n.toNat ≤ vm.stack.length then .ok { vm with stack := vm.stack.take (vm.stack.length - n.toNat) }
+  else .panic
+
+def Vm.readByte (vm : Vm) : M (BitVec 8 × Vm) :=
+  M.bind (idx vm.code vm.ip) fun b => .ok (b, { vm with ip := vm.ip + 1 })
+
+def Vm.readShort (vm : Vm) : M (BitVec 16 × Vm) :=
+  M.bind (idx vm.code vm.ip) fun lo =>
+  M.bind (idx vm.code (vm.ip + 1)) fun hi =>
+  .ok ((hi.setWidth 16 <<< 8) ||| lo.setWidth 16, { vm with ip := vm.ip + 2 })
+
+/-- `try_handle_error(err)`: the error is handed to the exception machinery; what it answers is part of the state. -/
+def Vm.raise (vm : Vm) (e : Err) : M (Except Err Unit × Vm) :=
+  .ok (vm.handled, { vm with raised := vm.raised ++ [e] })
+
+/-- `==` on values as far as they are modelled: numbers by IEEE equality, booleans and nil structurally, everything else by identity. -/
+def Value.eq : Value → Value → Bool
+  | .Number a, .Number b => F64.eq a b
+  | .Boolean a, .Boolean b => a == b
+  | .None, .None => true
+  | .Other a, .Other b => a == b
+  | _, _ => false
+
+end Yarel.Rs
